@@ -708,7 +708,7 @@ def spaces(tier, variant, seed):
     g_sscanf = lib.sym("gmp_sscanf")
     g_sscanf.restype = c_int
     TEMPLATES = ["-123456789012345678901234567890", "12/7", "-1234567890123456789012345/98765432109876543210987", "0x1f/0x10", "1.5e3", "-0.25@-2", "  42", "7/ 3", "ff/10"]
-    BADCH = ["y", "/", " ", "-", ".", "@", "", "+", "\x01", "9"]
+    BADCH = ["y", "/", " ", "-", ".", "@", "", "+", "\x01", "9", "\x80", "\x9a", "\xff"]      # bytes >= 0x80: a signed-char index into the digit table reads before it (ASan pass)
 
     def pr_cases(blk):
         ti = blk
